@@ -60,7 +60,7 @@ def model_input(p, root):
                 if prm["ctx"]:
                     uses.append((True, prm["name"], "Context", False))   # alias never referenced, dropped
                 else:
-                    uses.append((True, prm["name"], rt, rt == "Item"))
+                    uses.append((True, prm["name"], rt, rt == "Item" or rt in P.ENUMS))
             files.setdefault(path, []).append((c["name"], m["name"], uses))
     return files, [c["name"] for c in p["controllers"]]
 
@@ -91,7 +91,9 @@ def main():
     else:
         projects = []
         while len(projects) < nproj:
-            p = P.gen_project(rng, {"multifile": True, "multipkg": True, "security": True, "params": True})
+            p = P.gen_project(rng, {"multifile": True, "multipkg": True, "security": True, "params": True,
+                                    "enums": True, "root_routes": True})
+            p["flags"] = {"generateEnumValidator": rng.random() < 0.6, "validateTopLevelOnlyEnum": rng.random() < 0.3}
             for c in p["controllers"]:
                 nf = rng.choice([1, 2, 3])
                 for m in c["methods"]:
@@ -113,6 +115,7 @@ def main():
             name = P.render_config(p, root, "verifproj/p%d" % k, openapi="3.0.0")
             conf = json.load(open(os.path.join(root, name)))
             conf["routesConfig"]["outputPath"] = "./dist/run%d/routes.go" % r
+            conf["experimentalConfig"] = dict(p.get("flags", {}))
             conf["openapiGeneratorConfig"]["specGeneratorConfig"]["outputPath"] = "./dist/run%d/spec.json" % r
             cn = "gleece-run%d.json" % r
             json.dump(conf, open(os.path.join(root, cn), "w"))
@@ -123,9 +126,12 @@ def main():
                 name = P.render_config(p, root, "verifproj/p%d" % k, openapi=v, engine=e)
                 conf = json.load(open(os.path.join(root, name)))
                 conf["openapiGeneratorConfig"]["specGeneratorConfig"]["outputPath"] = "./dist/eng-%s-%s/spec.json" % (e, v)
+                conf["routesConfig"]["outputPath"] = "./dist/eng-%s-%s/routes.go" % (e, v)
+                conf["experimentalConfig"] = dict(p.get("flags", {}))
                 cn = "gleece-eng-%s-%s.json" % (e, v)
                 json.dump(conf, open(os.path.join(root, cn), "w"))
-                jobs.append({"dir": root, "args": ["generate", "spec", "-c", cn]})
+                # the spec must not depend on the engine nor on which command produced it
+                jobs.append({"dir": root, "args": ["generate", "spec-and-routes" if e != "gin" else "spec", "-c", cn]})
                 idx.append((k, "eng", (e, v)))
     results = P.run_cli_many(jobs)
     per = [dict(run=[], eng={}, exits=[]) for _ in projects]
